@@ -861,6 +861,12 @@ func (w *worldExec) ship(s *ShipSpec) {
 }
 
 func hookFor(c *CheckSpec, failed *bool) func(args.ReadOnly) (*args.Args, error) {
+	// an Add that fails is the hook's own failure (no verdict) only if the same Add fails on a
+	// fresh, empty collection too (a value the library rightly refuses); if it fails only on what
+	// the library handed to the hook, the library let the hook down and the outcome is judged
+	legit := func(key string, val any) bool {
+		return args.New().Add(key, val) != nil
+	}
 	return func(ro args.ReadOnly) (*args.Args, error) {
 		switch c.Hook {
 		case "fail":
@@ -869,7 +875,7 @@ func hookFor(c *CheckSpec, failed *bool) func(args.ReadOnly) (*args.Args, error)
 		case "add":
 			a := ro.WriteableClone()
 			if err := a.Add(c.HookKey, valToGo(*c.HookVal)); err != nil {
-				*failed = true
+				*failed = legit(c.HookKey, valToGo(*c.HookVal))
 				return nil, err
 			}
 			return a, nil
@@ -878,14 +884,14 @@ func hookFor(c *CheckSpec, failed *bool) func(args.ReadOnly) (*args.Args, error)
 			for k, v := range ro.Iter() {
 				if k != c.HookKey {
 					if err := a.Add(k, v); err != nil {
-						*failed = true
+						*failed = legit(k, v)
 						return nil, err
 					}
 				}
 			}
 			if c.Hook == "replace" {
 				if err := a.Add(c.HookKey, valToGo(*c.HookVal)); err != nil {
-					*failed = true
+					*failed = legit(c.HookKey, valToGo(*c.HookVal))
 					return nil, err
 				}
 			}
@@ -1089,6 +1095,9 @@ func (w *worldExec) decideProv(label string, c *CheckSpec, useHook bool, prov st
 			o.Violate("C04", "chain-window", "allowed although "+v.whyW, attrs)
 		}
 	} else if v.P && v.K && v.Q && v.Qdefinite && v.Wstrict && allLoaded && !(useHook && c.Hook == "fail") && !hookFailed {
+		// (a hook of the plan that is not meant to fail and fails all the same - adding a fresh key
+		// to a writeable clone, re-adding the token's own values - was let down by the library: the
+		// conforming chain stays denied, which is what is reported)
 		o.Violate("C05", "completeness", fmt.Sprintf("conforming chain denied: %v", err), attrs)
 	}
 
@@ -1172,6 +1181,11 @@ func repPattern(inv *InvSpec, dl []*DlgSpec) string {
 func (w *worldExec) check(c *CheckSpec) {
 	d0 := w.decideOne(c.Inv, c, false)
 	w.decideOne(c.Inv, c, true)
+	if c.Hook == "add" || c.Hook == "replace" {
+		// the same hook once more on the same token object: what the first evaluation's hook did to
+		// its writeable clone must not have reached the token
+		w.decideOne(c.Inv, c, true)
+	}
 	if c.Prov != "" {
 		w.decideProv(c.Inv, c, false, c.Prov)
 		w.decideProv(c.Inv, c, true, c.Prov)
